@@ -116,6 +116,10 @@ def gen(repo):
     kfit = "\n".join(ast.unparse(n) for n in body_nodoc(find_func(kcls, "fit")))
     if "self.coords_in = {str(i): data.coords[self.feature_name] for (i, data) in enumerate(X)}" not in kfit.replace("for i, data in", "for (i, data) in"):
         raise TransError("Concatenator.fit: coords_in changed")
+    # Preprocessor.deserialize rebuilds the per-item transformers in the stored (insertion) order
+    dsrc = ast.unparse(find_func(cls, "deserialize"))
+    if "for transformer in dt[name].transformers.values():" not in dsrc:
+        raise TransError("Preprocessor.deserialize: the per-item transformers are not rebuilt in stored order")
     sl = lambda xs: "[" + "; ".join('"%s"' % x for x in xs) + "]"  # noqa
     out = ["(* generated by tools/py2coq/t7_pipe.py from %s and %s *)" % (PRE, REN), "From Coq Require Import String List Bool.",
            "From XV Require Import Model.Pipe Model.Concat.", "Import ListNotations.", "Open Scope string_scope.", "",
